@@ -443,7 +443,7 @@ theorem step_agree (srv : Option Impl.Doc) (ed ed' : Option Spec.Doc) (e : Impl.
     | none =>
       simp [encodeEvent, Spec.step] at hstep
       subst hstep
-      exact ⟨_, rfl, rfl, rfl, rfl⟩
+      exact ⟨_, rfl, rfl, rfl, rfl, rfl⟩
   | didClose =>
     cases ed with
     | none => simp [encodeEvent, Spec.step] at hstep
@@ -457,11 +457,55 @@ theorem step_agree (srv : Option Impl.Doc) (ed ed' : Option Spec.Doc) (e : Impl.
         simp [Impl.step] at hd
         subst hd
         rfl
+  | didSave =>
+    cases ed with
+    | none => simp [encodeEvent, Spec.step] at hstep
+    | some doc =>
+      simp [encodeEvent, Spec.step] at hstep
+      subst hstep
+      exact hag
+  | watchedDeleted =>
+    cases ed with
+    | some doc => simp [encodeEvent, Spec.lfEvent] at hg
+    | none =>
+      simp [encodeEvent, Spec.step] at hstep
+      subst hstep
+      intro d hd
+      simp [Impl.step] at hd
+  | watchedChanged disk =>
+    simp [encodeEvent, Spec.step] at hstep
+    subst hstep
+    cases disk with
+    | none => exact hag
+    | some disk =>
+      cases ed with
+      | some doc =>
+        -- the `is_open` guard of the index path: an open document ignores the disk
+        obtain ⟨d, hsrv, h1, h2, hopen, h3⟩ := hag
+        subst hsrv
+        exact ⟨d, by simp [Impl.step, hopen], h1, h2, hopen, h3⟩
+      | none =>
+        intro d hd
+        cases srv with
+        | none =>
+          simp [Impl.step] at hd
+          subst hd
+          rfl
+        | some d0 =>
+          have hclosed := hag d0 rfl
+          simp only [Impl.step, hclosed] at hd
+          by_cases heq : d0.text = disk
+          · simp [heq] at hd
+            subst hd
+            exact hclosed
+          · simp [heq] at hd
+            subst hd
+            rfl
   | didChange v cs =>
     cases ed with
     | none => simp [encodeEvent, Spec.step] at hstep
     | some doc =>
-      obtain ⟨d, hsrv, htext, _, _⟩ := hag
+      obtain ⟨d, hsrv, htext, _, _, _⟩ := hag
       subst hsrv
       simp only [encodeEvent, Spec.step] at hstep
       simp only [encodeEvent, Spec.lfEvent] at hg
@@ -479,7 +523,54 @@ theorem step_agree (srv : Option Impl.Doc) (ed ed' : Option Spec.Doc) (e : Impl.
             cases cs with
             | nil => simp at hemp
             | cons _ _ => rfl
-          exact ⟨{ text := s', version := v, isOpen := true }, by simp [Impl.step, hne, hs'], he', rfl, rfl⟩
+          exact ⟨{ text := s', version := v, isOpen := true, analysed := s' },
+            by simp [Impl.step, hne, hs'], he', rfl, rfl, rfl⟩
+
+/-- Whatever the events: the analysis database reads the document's `content`. -/
+theorem step_analysed (srv : Option Impl.Doc) (e : Impl.Event)
+    (h : ∀ d, srv = some d → d.analysed = d.text) :
+    ∀ d, Impl.step srv e = some d → d.analysed = d.text := by
+  intro d hd
+  cases e with
+  | didOpen v t => simp [Impl.step] at hd; subst hd; rfl
+  | didClose =>
+    cases srv with
+    | none => simp [Impl.step] at hd
+    | some d0 => simp [Impl.step] at hd; subst hd; exact h d0 rfl
+  | didSave => exact h d hd
+  | watchedDeleted => simp [Impl.step] at hd
+  | watchedChanged disk =>
+    cases disk with
+    | none => exact h d hd
+    | some disk =>
+      cases srv with
+      | none => simp [Impl.step] at hd; subst hd; rfl
+      | some d0 =>
+        simp only [Impl.step] at hd
+        split at hd
+        · cases hd; exact h _ rfl
+        · split at hd
+          · cases hd; exact h _ rfl
+          · cases hd; rfl
+  | didChange v cs =>
+    simp only [Impl.step] at hd
+    split at hd
+    · exact h d hd
+    · cases srv with
+      | none => simp at hd
+      | some d0 =>
+        simp only at hd
+        split at hd
+        · cases hd; rfl
+        · cases hd; exact h _ rfl
+
+theorem run_analysed : ∀ (evs : List Impl.Event) (srv : Option Impl.Doc),
+    (∀ d, srv = some d → d.analysed = d.text) →
+    ∀ d, Impl.run srv evs = some d → d.analysed = d.text := by
+  intro evs
+  induction evs with
+  | nil => intro srv h d hd; exact h d hd
+  | cons e es ih => intro srv h d hd; exact ih (Impl.step srv e) (step_analysed srv e h) d hd
 
 theorem run_agree : ∀ (evs : List Impl.Event) (srv : Option Impl.Doc) (ed ed' : Option Spec.Doc),
     Agree srv ed →
